@@ -60,11 +60,13 @@ def determinism(props, runs=200):
         # worker counts 1 and 16 through the real runner: evidence digest list
         ev = []
         for workers in (1, 16):
-            rc, out, err = _fresh([prop, "--runs", str(min(runs, 128)), "--workers", str(workers)], 777)
-            path = os.path.join(env.VERIF_DIR, "evidence", f"{prop}.json")
+            tmp = tempfile.mkdtemp(prefix="verif-det-", dir="/tmp")
+            rc, out, err = _fresh([prop, "--runs", str(min(runs, 128)), "--workers", str(workers)], 777, {"VERIF_EVIDENCE_DIR": tmp, "VERIF_REPLAY_DIR": tmp})
+            path = os.path.join(tmp, f"{prop}.json")
             with open(path) as f:
                 c = json.load(f)["coverage"]
             ev.append((rc, c["simulated_time_logical_events"], c["distinct_states_reached"], c["distinct_schedules"], json.dumps(c["faults_fired"], sort_keys=True)))
+            shutil.rmtree(tmp, ignore_errors=True)
         ok = outs[0] == outs[1] and outs[0][0] == 0 and ev[0] == ev[1]
         print(f"determinism {prop}: hashseed0={outs[0][1][:16]} hashseed12345={outs[1][1][:16]} workers1-vs-16={'same' if ev[0] == ev[1] else 'DIFFERENT'} -> {'OK' if ok else 'MISMATCH'}")
         if not ok:
@@ -137,7 +139,20 @@ def sensitivity(names, quiet=False, runs=None):
                 else:
                     ok = rc == 1
                     first = lines[1].strip() if len(lines) > 1 else (lines[0] if lines else "")
-                    print(f"sensitivity {e['name']} {prop}: rc={rc} -> {'DETECTED' if ok else 'MISSED'} {first[:150]}")
+                    replay_note = ""
+                    if ok:
+                        rp = [ln.split("replay=")[1].strip() for ln in lines if ln.startswith("VIOLATION") and "replay=" in ln]
+                        # the replay file must reproduce on the broken copy and stay silent on /repo
+                        r1, o1, _ = _fresh(["replay", rp[0]], 4242, {"VERIF_REPO": d})
+                        r2, o2, _ = _fresh(["replay", rp[0]], 4242)
+                        with open(rp[0]) as f:
+                            rep = json.load(f)
+                        n_cmds = len(rep["case"]["cmds"])
+                        replay_note = f" [replay: mutant rc={r1}, unchanged rc={r2}, {rep.get('original_commands')}->{n_cmds} cmds]"
+                        if r1 != 1 or r2 != 0 or f"oracle={rep['oracle']}" not in o1:
+                            ok = False
+                            replay_note += " REPLAY-MISMATCH"
+                    print(f"sensitivity {e['name']} {prop}: rc={rc} -> {'DETECTED' if ok else 'MISSED'}{replay_note} {first[:110]}")
                 if not ok:
                     bad += 1
                     if rc == 2:
